@@ -273,6 +273,27 @@ fn bits(v: &[f64]) -> Vec<u64> {
     v.iter().map(|x| if x.is_nan() { 0x7ff8_0000_0000_0000 } else { x.to_bits() }).collect()
 }
 
+/// left operands as a caller may hand them over: exactly sized, or (bit 3 of `alt`) grown into a buffer
+/// with spare capacity (push / with_capacity + extend / truncate leave such buffers behind)
+fn vec_of(a: &[f64], alt: usize) -> Vector {
+    if (alt / 8) % 2 == 1 {
+        let mut v = Vec::with_capacity(a.len() + 9 + alt % 7);
+        v.extend_from_slice(a);
+        Vector::new(v)
+    } else {
+        Vector::new(a.to_vec())
+    }
+}
+fn mat_of(a: &[f64], rows: usize, alt: usize) -> Matrix {
+    if (alt / 8) % 2 == 1 && !a.is_empty() {
+        let mut v = Vec::with_capacity(a.len() + 9 + alt % 7);
+        v.extend_from_slice(a);
+        Matrix::new(v, rows as i32, (a.len() / rows) as i32)
+    } else {
+        mk_matrix(a, rows)
+    }
+}
+
 fn mk_matrix(d: &[f64], rows: usize) -> Matrix {
     if d.is_empty() {
         Matrix::empty()
@@ -330,14 +351,14 @@ fn run_form(f: &Form, a: &[f64], b: &[f64], s: f64, rows: usize, alt: usize, ali
     match *f {
         Form::VV(op, Own::RR) if alias => {
             // both operands are the SAME object
-            let x = Vector::new(a.to_vec());
+            let x = vec_of(a, alt);
             catch(move || {
                 let r = binop!(op, &x, &x);
                 Outc { res: bits(&r), shape: (1, n), a_after: Some(bits(&x)), b_after: Some(bits(&x)) }
             })
         }
         Form::MM(op, Own::RR) if alias => {
-            let x = mk_matrix(a, rows);
+            let x = mat_of(a, rows, alt);
             catch(move || {
                 let r = binop!(op, &x, &x);
                 if (x.nrows, x.ncols) != mshape {
@@ -347,7 +368,7 @@ fn run_form(f: &Form, a: &[f64], b: &[f64], s: f64, rows: usize, alt: usize, ali
             })
         }
         Form::VV(op, own) => {
-            let (x, y) = (Vector::new(a.to_vec()), Vector::new(b.to_vec()));
+            let (x, y) = (vec_of(a, alt), Vector::new(b.to_vec()));
             catch(move || match own {
                 Own::VV => Outc { res: bits(&binop!(op, x, y)), shape: (1, n), a_after: None, b_after: None },
                 Own::RR => {
@@ -365,7 +386,7 @@ fn run_form(f: &Form, a: &[f64], b: &[f64], s: f64, rows: usize, alt: usize, ali
             })
         }
         Form::VS(op, owned) => {
-            let x = Vector::new(a.to_vec());
+            let x = vec_of(a, alt);
             catch(move || {
                 if owned {
                     Outc { res: bits(&binop!(op, x, s)), shape: (1, n), a_after: None, b_after: None }
@@ -376,7 +397,7 @@ fn run_form(f: &Form, a: &[f64], b: &[f64], s: f64, rows: usize, alt: usize, ali
             })
         }
         Form::SV(op, owned) => {
-            let x = Vector::new(a.to_vec());
+            let x = vec_of(a, alt);
             catch(move || {
                 if owned {
                     Outc { res: bits(&binop!(op, s, x)), shape: (1, n), a_after: None, b_after: None }
@@ -387,7 +408,7 @@ fn run_form(f: &Form, a: &[f64], b: &[f64], s: f64, rows: usize, alt: usize, ali
             })
         }
         Form::VAssignV(op, rhs_owned) => {
-            let (mut x, y) = (Vector::new(a.to_vec()), Vector::new(b.to_vec()));
+            let (mut x, y) = (vec_of(a, alt), Vector::new(b.to_vec()));
             catch(move || {
                 if rhs_owned {
                     assignop!(op, x, y);
@@ -399,39 +420,39 @@ fn run_form(f: &Form, a: &[f64], b: &[f64], s: f64, rows: usize, alt: usize, ali
             })
         }
         Form::VAssignS(op) => {
-            let mut x = Vector::new(a.to_vec());
+            let mut x = vec_of(a, alt);
             catch(move || {
                 assignop!(op, x, s);
                 Outc { res: bits(&x), shape: (1, n), a_after: None, b_after: None }
             })
         }
         Form::VNeg => {
-            let x = Vector::new(a.to_vec());
+            let x = vec_of(a, alt);
             catch(move || Outc { res: bits(&(-x)), shape: (1, n), a_after: None, b_after: None })
         }
         Form::VMap(k) => {
-            let x = Vector::new(a.to_vec());
+            let x = vec_of(a, alt);
             catch(move || {
                 let r: Vector = map_dispatch!(k, x);
                 Outc { res: bits(&r), shape: (1, n), a_after: Some(bits(&x)), b_after: None }
             })
         }
         Form::VPowi(e) => {
-            let x = Vector::new(a.to_vec());
+            let x = vec_of(a, alt);
             catch(move || {
                 let r = x.powi(e);
                 Outc { res: bits(&r), shape: (1, n), a_after: Some(bits(&x)), b_after: None }
             })
         }
         Form::VPowf(e) => {
-            let x = Vector::new(a.to_vec());
+            let x = vec_of(a, alt);
             catch(move || {
                 let r = x.powf(e.0);
                 Outc { res: bits(&r), shape: (1, n), a_after: Some(bits(&x)), b_after: None }
             })
         }
         Form::MM(op, own) => {
-            let (x, y) = (mk_matrix(a, rows), mk_matrix(b, rows));
+            let (x, y) = (mat_of(a, rows, alt), mk_matrix(b, rows));
             catch(move || {
                 let (r, aa, bb) = match own {
                     Own::VV => (binop!(op, x, y), None, None),
@@ -458,7 +479,7 @@ fn run_form(f: &Form, a: &[f64], b: &[f64], s: f64, rows: usize, alt: usize, ali
         }
         Form::MS(op, owned) | Form::SM(op, owned) => {
             let left_scalar = matches!(f, Form::SM(..));
-            let x = mk_matrix(a, rows);
+            let x = mat_of(a, rows, alt);
             catch(move || {
                 let (r, aa) = match (left_scalar, owned) {
                     (false, true) => (binop!(op, x, s), None),
@@ -481,7 +502,7 @@ fn run_form(f: &Form, a: &[f64], b: &[f64], s: f64, rows: usize, alt: usize, ali
             })
         }
         Form::MAssignM(op, rhs_owned) => {
-            let (mut x, y) = (mk_matrix(a, rows), mk_matrix(b, rows));
+            let (mut x, y) = (mat_of(a, rows, alt), mk_matrix(b, rows));
             catch(move || {
                 if rhs_owned {
                     assignop!(op, x, y);
@@ -493,35 +514,35 @@ fn run_form(f: &Form, a: &[f64], b: &[f64], s: f64, rows: usize, alt: usize, ali
             })
         }
         Form::MAssignS(op) => {
-            let mut x = mk_matrix(a, rows);
+            let mut x = mat_of(a, rows, alt);
             catch(move || {
                 assignop!(op, x, s);
                 Outc { res: bits(&x.data), shape: (x.nrows, x.ncols), a_after: None, b_after: None }
             })
         }
         Form::MNeg => {
-            let x = mk_matrix(a, rows);
+            let x = mat_of(a, rows, alt);
             catch(move || {
                 let r = -x;
                 Outc { res: bits(&r.data), shape: (r.nrows, r.ncols), a_after: None, b_after: None }
             })
         }
         Form::MMap(k) => {
-            let x = mk_matrix(a, rows);
+            let x = mat_of(a, rows, alt);
             catch(move || {
                 let r: Matrix = map_dispatch!(k, x);
                 Outc { res: bits(&r.data), shape: (r.nrows, r.ncols), a_after: Some(bits(&x.data)), b_after: None }
             })
         }
         Form::MPowi(e) => {
-            let x = mk_matrix(a, rows);
+            let x = mat_of(a, rows, alt);
             catch(move || {
                 let r = x.powi(e);
                 Outc { res: bits(&r.data), shape: (r.nrows, r.ncols), a_after: Some(bits(&x.data)), b_after: None }
             })
         }
         Form::MPowf(e) => {
-            let x = mk_matrix(a, rows);
+            let x = mat_of(a, rows, alt);
             catch(move || {
                 let r = x.powf(e.0);
                 Outc { res: bits(&r.data), shape: (r.nrows, r.ncols), a_after: Some(bits(&x.data)), b_after: None }
@@ -567,6 +588,13 @@ fn run_form(f: &Form, a: &[f64], b: &[f64], s: f64, rows: usize, alt: usize, ali
             })
         }
         Form::MisVV(op, own) => {
+            if (alt / 4) % 2 == 1 {
+                // the slice-level reduction of two operands of different length that start at the SAME address
+                let buf: Vec<f64> = (0..n + 3).map(|i| i as f64 + 0.5).collect();
+                if let Ok(v) = catch(|| dot(&buf[..n + 2], &buf[..n])) {
+                    return Ok(Outc { res: bits(&[v]), shape: (1, 0), a_after: None, b_after: None });
+                }
+            }
             let other: Vec<f64> = (0..(n + 1 + alt % 9)).map(|i| i as f64 + 0.5).collect();
             let (swap, olen) = (alt % 2 == 1, other.len());
             let (l, r) = if swap { (other.clone(), a.to_vec()) } else { (a.to_vec(), other.clone()) };
@@ -591,11 +619,20 @@ fn run_form(f: &Form, a: &[f64], b: &[f64], s: f64, rows: usize, alt: usize, ali
             })
         }
         Form::MisVAssign(op, rhs_owned) => {
-            let other: Vec<f64> = if alt % 2 == 0 { (0..(n + 1 + alt % 9)).map(|i| i as f64 - 1.5).collect() } else { (0..n.saturating_sub(1 + alt % 3)).map(|i| i as f64 - 1.5).collect() };
+            let other: Vec<f64> = if n >= 65_536 {
+                // bulk paths work in blocks: the other operand is a whole number of 8192-element blocks
+                let m = (n / 8192) * 8192;
+                let m = if m != n && alt % 2 == 0 { m } else { m + 8192 };
+                (0..m).map(|i| i as f64 - 1.5).collect()
+            } else if alt % 2 == 0 {
+                (0..(n + 1 + alt % 9)).map(|i| i as f64 - 1.5).collect()
+            } else {
+                (0..n.saturating_sub(1 + alt % 3)).map(|i| i as f64 - 1.5).collect()
+            };
             if other.len() == n {
                 return Ok(Outc { res: vec![], shape: (9, 9), a_after: None, b_after: None });
             }
-            let (mut x, y) = (Vector::new(a.to_vec()), Vector::new(other));
+            let (mut x, y) = (vec_of(a, alt), Vector::new(other));
             catch(move || {
                 let r = if rhs_owned {
                     let yy = y.clone();
@@ -864,7 +901,7 @@ fn is_matrix_form(f: &Form) -> bool {
 
 fn gen_val(r: &mut Sm, special: bool) -> f64 {
     if special && r.chance(0.12) {
-        return *r.pick(&[0.0, -0.0, f64::INFINITY, f64::NEG_INFINITY, f64::NAN, 5e-324, -1e-310, f64::MAX, f64::MIN_POSITIVE, -f64::MAX, 1.0, -1.0]);
+        return *r.pick(&[0.0, -0.0, f64::INFINITY, f64::NEG_INFINITY, f64::NAN, 5e-324, -1e-310, f64::MAX, f64::MIN_POSITIVE, -f64::MAX, 1.0, -1.0, 0.49999999999999994, -0.49999999999999994, 0.5, -0.5, 1.5, 2.5, 4503599627370497.0, -4503599627370497.0, 9007199254740991.0]);
     }
     match r.below(6) {
         0 => r.range(-9, 9) as f64,
@@ -880,8 +917,14 @@ fn gen_val(r: &mut Sm, special: bool) -> f64 {
 /// reciprocals exist for all of them except 2^1023 and the subnormal ones)
 fn gen_scalar(r: &mut Sm, special: bool) -> f64 {
     if special && r.chance(0.06) {
-        let e = *r.pick(&[1023i32, 1022, -1022, -1023, -1074, 512, -512]);
+        let e = *r.pick(&[1023i32, 1022, -1022, -1023, -1074, 512, -512, 3, 4, 60, -1, 0]);
         let v = if e >= -1022 { f64::from_bits(((e + 1023) as u64) << 52) } else { f64::from_bits(1u64 << (e + 1074)) };
+        // the power of two itself or one of its two neighbours
+        let v = match r.below(4) {
+            0 if v.is_normal() && e < 1023 => f64::from_bits(v.to_bits() + 1),
+            1 if v.is_normal() => f64::from_bits(v.to_bits() - 1),
+            _ => v,
+        };
         return if r.chance(0.5) { v } else { -v };
     }
     gen_val(r, special)
@@ -897,7 +940,8 @@ fn gen_vec(r: &mut Sm, n: usize, kind: u8) -> Vec<f64> {
                 2 => 690.0 + r.f64() * 30.0,
                 _ => -(690.0 + r.f64() * 70.0),
             };
-            let spread = *r.pick(&[0.0, 1e-3, 1.0, 5.0, 40.0]);
+            let base = if n > 12_000 && r.chance(0.3) { *r.pick(&[699.5, 699.99, 700.5, 705.0, -699.9]) } else { base };
+            let spread = if n > 12_000 && r.chance(0.5) { 0.49 } else { *r.pick(&[0.0, 1e-3, 1.0, 5.0, 40.0]) };
             let mut v: Vec<f64> = (0..n).map(|_| base - r.f64() * spread).collect();
             // one dominant entry, all the others in a tight cluster c below it: whether the cluster
             // matters is decided by n * exp(-c) against the rounding bound, not by exp(-c) alone
